@@ -213,12 +213,13 @@ def evalFilterAux (e : Event) (neg : Bool) : Filter → Tri × Classes
       -- a free-text term that is a NUMBER: the engine reads it as "some field equals this number" (spl.peg
       -- UnnamedFieldWithNumberValue: comparison `* = n`), by value, over every column but the timestamp — the harness
       -- column _vid included.  A value that merely CONTAINS the digits as a word ("has 7 inside") matches the
-      -- text reading of a term and not the engine's: left to the engine.  Under a NOT the engine evaluates `* != n`
-      -- as "some column differs" (recorded deviation, class negated-numeric-term)
+      -- text reading of a term and not the engine's: left to the engine.  Under a NOT the complement is meant (repaired,
+      -- patch c02-7: the engine evaluated `* != n` as "some column differs from n", i.e. every event; the class label
+      -- negated-numeric-term is no longer emitted, a recurrence is reported without a class)
       let byValue := (q == (e.vid : Rat)) || e.fields.any (fun (_, v) => match v with
         | .int i => (i : Rat) == q | .dec d _ => d == q | .str s => numericText? s == some q | .bool _ => false)
       let t := if byValue then Tri.yes else if termMatches w e then Tri.either else Tri.no
-      (t, if neg then ["negated-numeric-term"] else [])
+      (t, [])
     | none =>
     -- a wildcard term that matches only an inner token of a value (`ba*` vs "foo bar"): the statement does
     -- not say whether wildcards are anchored at the token or at the value; left to the engine
